@@ -136,7 +136,10 @@ def read_docs(bodies, B, pad=0):
         doc = PDFDocument(PDFParser(io.BytesIO(out.getvalue())), caching=False)
         for i in range(len(bodies)):
             try:
-                res.append((proj(doc.getobj(i + 3)), None))
+                first = proj(doc.getobj(i + 3))
+                # the document is opened with caching off: a second look-up reads the object again and must agree
+                again = proj(doc.getobj(i + 3))
+                res.append((first, None) if again == first else (("other", "second getobj differs: %r" % (again,)), None))
             except BaseException as e:
                 res.append((None, type(e).__name__))
     finally:
